@@ -16,6 +16,7 @@ type evalEnv struct {
 	memo map[*Term]string
 	apps map[*Term][]string // UF application -> evaluated argument values (for fact learning)
 	appv map[*Term]string
+	defs map[*Term]*Term // witness variable -> defining term (evaluated on demand)
 }
 
 func newEvalEnv() *evalEnv {
@@ -72,6 +73,9 @@ func (e *evalEnv) eval1(t *Term) string {
 	case "var":
 		v, ok := e.vars[t]
 		if !ok {
+			if d, has := e.defs[t]; has {
+				return e.eval(d)
+			}
 			panic(evalErr{"no value for variable " + t.Name})
 		}
 		return v
